@@ -86,6 +86,7 @@ def make_jobs(chk, n, seed_off=0, extra=None):
 def instance_features(j, r):
     f = [j["source"], j["mode"], "prune" if j["prune"] else "noprune"] + al.features(j["cfg"])
     if r.get("raw") and len({len([v for v in e["verts"][j["cfg"]["sup"]] if v[0] >= 0]) for e in r["raw"]}) > 1: f.append("ragged-episodes")
+    if r.get("raw") and r.get("max_steps") is not None and len(r["raw"]) > r["max_steps"]: f.append("more-episodes-than-partitions")
     return f
 
 
@@ -97,6 +98,12 @@ def run(chk, replay=None, prop="C07"):
         # sequence numbers and read the scheduled windows
         return dict(starting_step=rnd.choice([1, 2])) if rnd.random() < 0.25 else {}
     jobs = corpus_jobs() + make_jobs(chk, 10 if quick else 40, extra=extra)
+    # many short episodes: more episodes than partitions (an episode index is not a partition index: every episode runs its OWN schedule)
+    import json as _json
+    for k, j0 in enumerate([j for j in jobs if j["id"].startswith("g")][:1 if quick else 4]):
+        jm = _json.loads(_json.dumps(j0)); jm.update(id=f"m{k}", episodes=6 if quick else 8, tmax=16, seed=(j0.get("seed") or 0) + 1)
+        jm.pop("reshape", None); jm.pop("starting_step", None)
+        jobs.append(jm)
     res = cl.run_jobs(jobs, nproc=10)
     evaluate(chk, jobs, res, prop)
     chk.extra["rule"] = ("computation graphs generated by generate_graphs (non-blocking connections) and recorded by the threaded runtime "
